@@ -31,6 +31,11 @@ class SimTask(_PyTask):     # type: ignore[misc,valid-type]
             qn = getattr(coro, '__qualname__', '')
             if not qn.endswith('handle_events'):
                 w.long_tasks.append((qn, self))
+            else:
+                def _done(t: Any, w: Any = w) -> None:
+                    if not t.cancelled() and t.exception() is not None:
+                        w.stats['probe:worker_survived_task_exception'] += 1
+                self.add_done_callback(_done)
 
     def __hash__(self) -> int:
         return self._sim_hash
